@@ -11,6 +11,9 @@ Proof. vm_compute. reflexivity. Qed.
 Lemma table_ok_true : table_ok metadata_fields = true.
 Proof. vm_compute. reflexivity. Qed.
 
+Lemma source_facts_true : marshal_shape_ok && time_standard && table_ok metadata_fields = true.
+Proof. vm_compute. reflexivity. Qed.
+
 (* ---------- induction principle for the nested value type ---------- *)
 Section ValueInd.
   Variable P : value -> Prop.
@@ -562,26 +565,36 @@ Section Main.
     - intros k _ _ H. rewrite H. reflexivity.
   Qed.
 
+  Lemma ingest_raw_inv pa c keys ua fs p :
+    pa <> PEventMsgp -> NoDup (skeys fs) ->
+    ingest_raw c keys ua fs = Some p -> INV widen (path_fields widen pa fs) [] p.
+  Proof.
+    intros Hp Hnd. unfold ingest_raw. rewrite (path_fields_id pa fs Hp).
+    destruct (extract c keys fs _) as [p0|] eqn:E; [|discriminate]. intros [= <-].
+    apply add_ua_inv.
+    exact (proj1 (extract_inv widen fs c keys [] _ p0 (INV_init_raw fs Hnd) E)).
+  Qed.
+
   Lemma ingest_inv pa c ua fs p :
     NoDup (skeys fs) -> ingest widen pa c ua fs = Some p -> INV widen (path_fields widen pa fs) [] p.
   Proof.
-    intros Hnd. unfold ingest. destruct fs as [|f0 fr] eqn:Efs; [discriminate|]. rewrite <- Efs in *. clear Efs f0 fr.
-    assert (Hbatch : forall keys, pa <> PEventMsgp ->
-              match extract c keys fs {| p_raw := fs; p_memo := []; p_missing := []; p_meta := [] |} with
-              | Some p0 => Some (add_ua ua p0) | None => None end = Some p ->
-              INV widen (path_fields widen pa fs) [] p).
-    { intros keys Hp. rewrite (path_fields_id pa fs Hp).
-      destruct (extract c keys fs _) as [p0|] eqn:E; [|discriminate]. intros [= <-].
-      apply add_ua_inv.
-      exact (proj1 (extract_inv widen fs c keys [] _ p0 (INV_init_raw fs Hnd) E)). }
+    intros Hnd. unfold ingest.
+    assert (Hev : forall pa', (pa' = PEventJson \/ pa' = PEventMsgp) ->
+              Some (extract_memo c (add_ua ua {| p_raw := []; p_memo := path_fields widen pa' fs;
+                                                 p_missing := []; p_meta := [] |})) = Some p ->
+              INV widen (path_fields widen pa' fs) [] p).
+    { intros pa' _ [= <-]. apply extract_memo_inv. apply add_ua_inv. apply INV_init_memo.
+      unfold path_fields. rewrite skeys_map_val. exact Hnd. }
     destruct pa.
-    - apply Hbatch. discriminate.
-    - apply Hbatch. discriminate.
-    - intros [= <-]. apply extract_memo_inv. apply add_ua_inv. apply INV_init_memo.
-      unfold path_fields. rewrite skeys_map_val. exact Hnd.
-    - intros [= <-]. apply extract_memo_inv. apply add_ua_inv. apply INV_init_memo.
-      unfold path_fields. rewrite skeys_map_val. exact Hnd.
-    - apply Hbatch. discriminate.
+    - destruct fs as [|f0 fr] eqn:Efs; [discriminate|]. rewrite <- Efs in *.
+      apply ingest_raw_inv; [discriminate|exact Hnd].
+    - destruct fs as [|f0 fr] eqn:Efs; [discriminate|]. rewrite <- Efs in *.
+      apply ingest_raw_inv; [discriminate|exact Hnd].
+    - destruct fs as [|f0 fr] eqn:Efs; [discriminate|]. rewrite <- Efs in *.
+      apply Hev. left. reflexivity.
+    - destruct fs as [|f0 fr] eqn:Efs; [discriminate|]. rewrite <- Efs in *.
+      apply Hev. right. reflexivity.
+    - apply ingest_raw_inv; [discriminate|exact Hnd].
   Qed.
 
   Theorem forward_preserves pa c ua fs ops out :
@@ -665,6 +678,21 @@ Section Main.
     intros Hp Hnd Hf Hr Hs. destruct (forward_preserves pa c ua fs ops out Hnd Hf) as (_ & H & _).
     rewrite (H k Hr Hs). destruct (slookup k fs) as [w|]; [|reflexivity]. cbn [option_map].
     destruct pa; try reflexivity. contradiction.
+  Qed.
+  (* two hops: what a node forwards (to a peer, on the msgpack batch path) and the peer forwards again *)
+  Corollary two_hops_preserve pa c ua fs out1 c2 ua2 ops2 out2 k :
+    NoDup (skeys fs) ->
+    forward widen pa c ua fs [] = Some out1 ->
+    forward widen PBatchMsgp c2 ua2 out1 ops2 = Some out2 ->
+    reserved k = false -> ~ In k (set_keys ops2) ->
+    option_map (canon widen) (slookup k out2) =
+    option_map (fun v => canon widen (path_spec pa v)) (slookup k fs).
+  Proof.
+    intros Hnd H1 H2 Hr Hs.
+    destruct (forward_preserves pa c ua fs [] out1 Hnd H1) as (Hn1 & Hp1 & _).
+    destruct (forward_preserves PBatchMsgp c2 ua2 out1 ops2 out2 Hn1 H2) as (_ & Hp2 & _).
+    rewrite (Hp2 k Hr Hs). cbn [path_spec].
+    specialize (Hp1 k Hr (fun x => x)). exact Hp1.
   Qed.
 End Main.
 
